@@ -340,9 +340,15 @@ class Machine(RuleBasedStateMachine):
 
     # ---- convert-dep5
     @precondition(lambda self: self.base is not None and len(self.history) <= 7)
-    @rule()
-    def convert(self):
-        self._run(["convert-dep5"], lambda b: {".reuse/dep5", "REUSE.toml"} if ".reuse/dep5" in b and "REUSE.toml" not in b else set(), "mut")
+    @rule(wpick=st.integers(0, 100))
+    def convert(self, wpick=0):
+        # in a Git work tree the command finds the root from any directory below it: REUSE.toml belongs in the root all the same
+        cwd = None
+        inner = [d for d in self._dirs() if not d.startswith(".git") and "/.git" not in d and not any(d == sm or d.startswith(sm + "/") for sm in self.submods) and os.path.isdir(self.root / d)]
+        if self.has_git and inner and wpick % 2:
+            cwd = self.root / inner[wpick % len(inner)]
+            self.ctx.label("convert-dep5: started in a sub-directory")
+        self._run(["convert-dep5"], lambda b: {".reuse/dep5", "REUSE.toml"} if ".reuse/dep5" in b and "REUSE.toml" not in b else set(), "mut", cwd=cwd)
 
     # ---- download
     @precondition(lambda self: self.base is not None and len(self.history) <= 7)
